@@ -21,6 +21,12 @@ type flexSut struct {
 	ops  int
 
 	maxLen, maxCap int
+
+	// blind: inside an unobserved-operation window verify makes no observing
+	// call at all (the results of the mutators themselves are still compared).
+	// valuesFirst: the next verify reads the exported Values before it calls Len.
+	blind       bool
+	valuesFirst bool
 }
 
 func (s *flexSut) note(op byte, a, b int) {
@@ -59,11 +65,21 @@ func (s *flexSut) preset(n, cp int) {
 // verify compares the whole sequence (Values and Len) with the model.
 func (s *flexSut) verify(op string, info ...int) bool {
 	c := s.c
+	if s.blind {
+		return true
+	}
 	var n int
+	vals := s.f.Values
 	if !c.Guard("Len", func() { n = s.f.Len() }) {
 		return false
 	}
-	vals := s.f.Values
+	note := ""
+	if s.valuesFirst {
+		s.valuesFirst = false
+		note = " (Values read before any method call)"
+	} else {
+		vals = s.f.Values
+	}
 	bad := -1
 	if n != len(s.m) || len(vals) != len(s.m) {
 		bad = len(s.m)
@@ -80,10 +96,11 @@ func (s *flexSut) verify(op string, info ...int) bool {
 		if len(info) == 3 {
 			op = fmt.Sprintf("%s(%d values) on len %d cap %d", op, info[0], info[1], info[2])
 		}
+		op += note
 		if n != len(s.m) || len(vals) != len(s.m) {
-			c.Failf(sig, "after %s: Len() = %d, len(Values) = %d, sequence model has %d elements (Values %v, model %v)", op, n, len(vals), len(s.m), vals, s.m)
+			c.Failf(sig, "after %s: Len() = %d, len(Values) = %d, sequence model has %d elements (Values %s, model %s)", op, n, len(vals), len(s.m), abbr(vals), abbr(s.m))
 		} else {
-			c.Failf(sig, "after %s: Values[%d] = %d, sequence model has %d (Values %v, model %v)", op, bad, vals[bad], s.m[bad], vals, s.m)
+			c.Failf(sig, "after %s: Values[%d] = %d, sequence model has %d (Values %s, model %s)", op, bad, vals[bad], s.m[bad], abbr(vals), abbr(s.m))
 		}
 		return false
 	}
@@ -112,7 +129,7 @@ func (s *flexSut) doAppend(k int) bool {
 	}
 	s.m = append(s.m, vs...)
 	if c.Logging() {
-		c.Logf("Append(%v) -> len %d cap %d", vs, len(s.f.Values), cap(s.f.Values))
+		c.Logf("Append(%s) -> len %d cap %d", abbr(vs), len(s.f.Values), cap(s.f.Values))
 	}
 	c.Add("flex_ops/Append", 1)
 	if k == 0 {
@@ -139,7 +156,7 @@ func (s *flexSut) doPrepend(k int) bool {
 	}
 	s.m = append(clone(vs), s.m...)
 	if c.Logging() {
-		c.Logf("Prepend(%v) on len %d cap %d -> len %d cap %d", vs, n2, cp, len(s.f.Values), cap(s.f.Values))
+		c.Logf("Prepend(%s) on len %d cap %d -> len %d cap %d", abbr(vs), n2, cp, len(s.f.Values), cap(s.f.Values))
 	}
 	c.Add("flex_ops/Prepend", 1)
 	nc := k + n2
@@ -275,7 +292,7 @@ func (s *flexSut) doSub(start, end int, adopt bool) bool {
 	}
 	c.Add("flex_ops/SubSlice", 1)
 	if !eqSeq(child.Values, want) {
-		c.Failf("flex-subslice", "SubSlice(%d, %d) of %v = %v, documented window is %v", start, end, s.m, child.Values, want)
+		c.Failf("flex-subslice", "SubSlice(%d, %d) of %s = %s, documented window is %s", start, end, abbr(s.m), abbr(child.Values), abbr(want))
 		return false
 	}
 	if len(want) > 0 && cap(child.Values) < parentCap-maxInt(start, 0) {
